@@ -65,6 +65,8 @@ SPECIAL = [
     ('diverge-slow', Block([('x', '200.*x + 1.')], maxtime=2)),
     ('diverge-cubic-late', Block([('x', '1.0001*x*x*x + 1e-3'), ('y', '.5*y + 1.')], ics={'x': '1.2'}, maxtime=2)),
     ('decorative-overflow', Block([('x', '.5*x + 1e300'), ('d', '1e300*x')], maxtime=2)),
+    ('persistent-div0-not-last', Block([('r', 'd/h + 0*x'), ('d', '2.'), ('x', '.5*x + 1.')], exos=[('h', '[1., 1., 1., 0., 0.]')], maxtime=4)),
+    ('persistent-log0-first', Block([('r', 'log10(h) + x'), ('x', '.5*x + 1.'), ('y', '.5*y + r')], exos=[('h', '[1., 1., 0., 0.]')], maxtime=3)),
     ('transient-div0', Block([('z', 't'), ('x', '1/z')], maxtime=3)),
     ('transient-div0-core', Block([('z', 't + 0.*x'), ('x', '1/z + 0.5*y'), ('y', '.5*x')], maxtime=3)),
     ('nonlinear-sqrt', Block([('x', 'sqrt(y*y + 1.)'), ('y', '0.5*x + 1')], maxtime=3)),
